@@ -70,7 +70,8 @@ func H_C05() {
 		calls++
 	}
 	vAssert(snaps[j].Open(), "stored snapshot is open")
-	if vChoice("closeothers", 0, 2) == 1 {
+	closedOthers := vChoice("closeothers", 0, 2) == 1
+	if closedOthers {
 		// only the stored snapshot (our extra reference) stays open, so the collector can run during the backup
 		for x := 0; x < ns; x++ {
 			snaps[x].Close()
@@ -89,6 +90,9 @@ func H_C05() {
 		return
 	}
 	vScanCheck(db2, c, snap2, &g, "restored snapshot")
+	if delta && db2.DeltaRestoreFailed > 0 {
+		vReach("delta-insert-rejected") // an item was present in the main data and in a delta file
+	}
 	if delta && db2.DeltaRestored > 0 {
 		vReach("delta-item-restored") // an item reached the restored snapshot only through a delta file
 	}
@@ -112,5 +116,21 @@ func H_C05() {
 	// the snapshot returned by LoadFromDisk is itself an immutable view while it stays open
 	g0 := ghosts[j]
 	vScanCheck(db2, c, snap2, &g0, "restored snapshot after later operations on the restored instance")
+	// C07 clause (user-managed memory): both instances return every block once everything is closed, whatever
+	// the backup and the restore went through (delta items, rejected delta inserts, later operations)
+	if c.mm {
+		if !closedOthers {
+			for x := 0; x < ns; x++ {
+				snaps[x].Close()
+			}
+		}
+		snaps[j].Close()
+		db.Close()
+		s3.Close()
+		snap2.Close()
+		db2.Close()
+		vAssert(vLiveBlocks() == 0, "source and restored instance return every block by Close")
+		vReach("c05-closed-all")
+	}
 	vReach("c05-done")
 }
